@@ -348,7 +348,10 @@ fn eval_builtin_incstr(
         }
     };
 
-    if (start * bits_per_char) >= bigint_size
+    // Without an explicit range the whole file is taken, even if empty;
+    // an explicit range must lie within the file
+    if query.args.len() >= 2 &&
+        (start * bits_per_char) >= bigint_size
     {
         query.report.error_span(
             format!(
@@ -360,7 +363,8 @@ fn eval_builtin_incstr(
         return Err(());
     }
 
-    if (end * bits_per_char) > bigint_size
+    if query.args.len() >= 3 &&
+        (end * bits_per_char) > bigint_size
     {
         query.report.error_span(
             format!(
